@@ -45,15 +45,18 @@ claim("C20", "Proof of the representation invariant of RewardScaler (count, mean
 claim("C15", "Proof that the 8 dihedral maps and the rotation/reflection with arbitrary angle preserve squared distances between any two points of an instance (polynomial identities, NRA; cos^2+sin^2=1 assumed), that copy 0 is the identity, that StateAugmentation places copy a of instance b at row a*B+b; and that the augmentation / multi-start / combined evaluators compute rewards on the original instance of each row and return, per instance, the maximum over its own candidates with the actions of that candidate.",
       not_covered=["float32 rounding (A1)", "SamplingEval / GreedyEval delegate to the policy (stand-in)", "EvalBase.__call__ concatenation (stand-in)"],
       assumptions=["cos^2+sin^2=1, cos 0=1, sin 0=0 for the uninterpreted trigonometric functions"])
-claim("C06", "Bounded stand-in only so far (labelled bounded): on tiny instances every mask-generated and every brute-force feasible solution must be accepted by check_solution_validity and every single-edit corruption found infeasible by an independent oracle must be rejected.",
-      level="exploration", note="Bounded run-time contract check, not a proof.")
+claim("C06", "Mixed: proof for the TSP / ATSP checkers (passes iff the actions are a permutation of 0..T-1) and the CVRP checker (passes => every customer exactly once and the load by the problem definition never above capacity + 1e-5, via a loop invariant; the capacity asserts pass for every feasible solution), with torch.sort seen through its assumed contract; the remaining checkers are covered by a bounded stand-in (all mask-generated / brute-force feasible solutions accepted, all single-edit corruptions rejected on tiny instances).",
+      level="other", note="TSP/ATSP/CVRP checkers proved (completeness of CVRP's sort-based permutation test assumed); other checkers bounded run-time contract check.",
+      explanation="TSPEnv/ATSPEnv/CVRPEnv.check_solution_validity are proved by tvc; CVRPTW, SDVRP, SVRP, OP, PCTSP, PDP, MTVRP, k-opt and ruin-repair checkers are covered by the bounded stand-ins routing_bruteforce / improvement_envs (labelled bounded, not counted as proved).")
 claim("C07", "Mixed: proof for SMTWTPEnv (_reset/_step/_get_reward) and for the loop-free building blocks of FJSPEnv (clock transition, scheduling of one operation, availability mask in both no-op modes, action translation, makespan reward; inherited by JSSPEnv) plus a bounded stand-in for the composed FJSP/JSSP/FFSP episodes (exhaustive enumeration of all mask-admitted sequences on tiny instances against an independent dispatch simulation).",
       level="other", note="SMTWTP and FJSP building blocks proved; FJSPEnv._step composition (masked_select + while loop), JSSP mask and FFSP bounded run-time contract check.",
       explanation="SMTWTPEnv methods are proved by tvc (obligations/discharged count those); FJSPEnv, JSSPEnv, FFSPEnv are covered by the bounded stand-in sched_episodes (labelled bounded, not counted as proved).")
-claim("C10", "Bounded stand-in only so far (labelled bounded): process_logits / top-k / top-p / greedy / sampling against a float64 reference over the exhaustive value grid and random families stated in the evidence.",
-      level="exploration", note="Bounded run-time contract check, not a proof.")
-claim("C11", "Bounded stand-in only so far (labelled bounded): for 24 policy/environment pairs with random weights the returned log-likelihood is recomputed step by step with an own rollout and the evaluate round trip is replayed.",
-      level="exploration", note="Bounded run-time contract check, not a proof.")
+claim("C10", "Mixed: proof that greedy selection returns a maximiser, in range and never a masked action (its in-code assert is discharged) given a proper step distribution, and that DecodingStrategy.step stores the action / the log-prob of exactly that action; the properness of the distribution itself (normalisation, masked => probability 0, top-k / top-p clauses, shift invariance) is checked by a bounded stand-in against a float64 reference over an exhaustive value grid.",
+      level="other", note="greedy / step bookkeeping proved; process_logits, top-k, top-p: bounded run-time contract check (sorting, cumulative sums and log-softmax over floats).",
+      explanation="DecodingStrategy.greedy and .step are proved by tvc with process_logits abstracted by its contract; process_logits / modify_logits_for_top_k/top_p_filtering / sampling are covered by the bounded stand-in decoding_dist (labelled bounded, not counted as proved).")
+claim("C11", "Mixed: proof that DecodingStrategy.step (Greedy, Evaluate; with and without store_all_logp) appends exactly one action and the log-prob the step distribution assigns to that action, that Evaluate uses the given action, and that get_log_likelihood selects / masks / sums as stated; the end-to-end evaluate round trip of the bundled policies is checked by a bounded stand-in (neural modules are outside the verifier).",
+      level="other", note="step bookkeeping and get_log_likelihood proved; policy round trips bounded run-time contract check.",
+      explanation="DecodingStrategy.step, get_log_likelihood are proved by tvc; ConstructivePolicy.forward with the zoo policies is covered by the bounded stand-in policy_roundtrip (labelled bounded, not counted as proved).")
 claim("C13", "Bounded stand-in only so far (labelled bounded): beam search outputs re-scored by an evaluate pass and compared with an own beam search on tiny instances, widths 2..N.",
       level="exploration", note="Bounded run-time contract check, not a proof.")
 claim("C14", "Bounded stand-in only so far (labelled bounded): every instance decoded alone, in reversed, sub-sampled and duplicated batches for 24 policy/environment pairs with random weights.",
